@@ -155,7 +155,7 @@ claimed["C08"] = dict(
         "all inputs, as necessary conditions: in (*Proof).Undo and everything it reaches hashes are paired with positions of one order class and caller order never reaches a "
         "requires-sorted sink; the updated lists returned by the undo helpers are taken over by the caller; the block's additions are reverted before its deletions and the deletion "
         "step works with the leaf count before the additions (numLeaves - numAdds); within one function the elements of a position list that is never written are read with one leaf count only "
-        "(a contradiction there is the known finding F2: undoAdd drops live leaves when the block destroyed empty roots); an existence decision made with maxPositionAtRow is dominated by a test that the forest had leaves.",
+        "(a contradiction there is the known finding F2: undoAdd drops live leaves when the block destroyed empty roots); an existence decision made with maxPositionAtRow is dominated by a test that the forest had leaves; de-twinning inserts the parent of a sibling pair in order.",
    ref="DESIGN.md 5/C08, engines E2+E7",
    technique="static dominance / dataflow rules on go/ssa and order-class abstract interpretation (custom analyzer)")
 
